@@ -237,3 +237,25 @@ Proof.
   assert ((p = 0 /\ q = 1) \/ (p = 0 /\ q = 2) \/ (p = 1 /\ q = 2))%nat as [[-> ->]|[[-> ->]|[-> ->]]] by lia;
     unfold det3, givens, delta; simpl; ring.
 Qed.
+
+(* 4x4: Laplace expansion along the first row *)
+Definition minor3 (A : mat) (r0 r1 r2 c0 c1 c2 : nat) : R :=
+  A r0 c0 * (A r1 c1 * A r2 c2 - A r1 c2 * A r2 c1)
+  - A r0 c1 * (A r1 c0 * A r2 c2 - A r1 c2 * A r2 c0)
+  + A r0 c2 * (A r1 c0 * A r2 c1 - A r1 c1 * A r2 c0).
+Definition det4 (A : mat) : R :=
+  A 0%nat 0%nat * minor3 A 1 2 3 1 2 3 - A 0%nat 1%nat * minor3 A 1 2 3 0 2 3
+  + A 0%nat 2%nat * minor3 A 1 2 3 0 1 3 - A 0%nat 3%nat * minor3 A 1 2 3 0 1 2.
+Lemma det4_mmul A B : det4 (mmul 4 A B) = det4 A * det4 B.
+Proof. unfold det4, minor3, mmul; simpl. ring. Qed.
+Lemma det4_ext A B : meq 4 4 A B -> det4 A = det4 B.
+Proof. intros H. unfold det4, minor3. rewrite !H by lia. reflexivity. Qed.
+Lemma det4_delta : det4 delta = 1.
+Proof. unfold det4, minor3, delta; simpl. ring. Qed.
+Lemma det4_givens p q c s : (p < q)%nat -> (q < 4)%nat -> det4 (givens p q c s) = c*c + s*s.
+Proof.
+  intros H1 H2.
+  assert ((p = 0 /\ q = 1) \/ (p = 0 /\ q = 2) \/ (p = 1 /\ q = 2) \/ (p = 0 /\ q = 3) \/ (p = 1 /\ q = 3) \/ (p = 2 /\ q = 3))%nat
+    as [[-> ->]|[[-> ->]|[[-> ->]|[[-> ->]|[[-> ->]|[-> ->]]]]]] by lia;
+    unfold det4, minor3, givens, delta; simpl; ring.
+Qed.
